@@ -102,7 +102,7 @@ func init() {
 			})
 			rt := &RuleResult{Rule: "OWN-STATE", Doc: "an iterator built from caller slices keeps its own copy: the value returned by the constructor reaches none of the caller's slice arguments (function arguments excepted), so rewriting the slice later cannot change what is enumerated", MinInst: 8}
 			for _, n := range []string{"itertools.Combinations", "itertools.CombinationsColex", "itertools.MultisetPermutations", "itertools.Permutations", "itertools.LexicographicPermutations",
-				"itertools.Partitions", "itertools.IntegerPartitions", "itertools.Product", "itertools.RestrictedPrefixProduct", "itertools.RestrictedPrefixPermutations", "itertools.PermutationsByPattern", "itertools.TopologicalSorts"} {
+				"itertools.Partitions", "itertools.IntegerPartitions", "itertools.Product", "itertools.MultisetCombinations", "itertools.RestrictedPrefixProduct", "itertools.RestrictedPrefixPermutations", "itertools.PermutationsByPattern", "itertools.TopologicalSorts"} {
 				fn := c.Fn(n)
 				var slices, funcs []int
 				for i, p := range fn.Params {
@@ -115,7 +115,6 @@ func init() {
 				}
 				freshResult(c, rt, fn, 0, slices, funcs, "does not alias the caller's slices")
 			}
-			rt.note("itertools.MultisetCombinations keeps its argument m by design on the pinned tree (listed under C19 RETAIN); it is not judged here")
 			mw := ruleMaskWidth(c, func(f string) bool { return strings.HasSuffix(filepath.Dir(f), "/itertools") })
 			// a precomputed count of objects (the product of the factors, say) overflows for inputs the
 			// odometer itself handles: no unbounded product of two variables
